@@ -56,7 +56,7 @@ def payloadStep (pre : Snap) (t : Track) (s : Step) : Bool :=
     the client accounted for every payload of every request, C07). -/
 def resolvedFiredStep (cfg : Cfg) (pre : Snap) (t : Track) (s : Step) : Bool :=
   -- (with acks = 0 there are no responses to account for: what is not reported failed was handed over)
-  !(if cfg.acks == producerAckNotRequired then (track pre t s).acct0 else (track pre t s).acct) || !s.post.idle ||
+  !((track pre t s).acct || (cfg.acks == producerAckNotRequired && (track pre t s).acct0)) || !s.post.idle ||
     s.post.outstanding.all (· ∈ s.post.queue)
 
 /-- With acknowledgements disabled the client's empty answer (request handed to the connection) is
